@@ -1362,6 +1362,72 @@ def _pure_name(e: ast.AST) -> bool:
     return isinstance(e, ast.Name)
 
 
+def _own_continues(s: ast.stmt):
+    if isinstance(s, ast.Continue):
+        yield s
+        return
+    if isinstance(s, (ast.For, ast.While, ast.FunctionDef, ast.ClassDef)):
+        if isinstance(s, (ast.For, ast.While)):
+            for x in s.orelse:
+                yield from _own_continues(x)
+        return
+    for fld in ("body", "orelse", "finalbody"):
+        sub = getattr(s, fld, None)
+        if isinstance(sub, list):
+            for x in sub:
+                if isinstance(x, ast.stmt):
+                    yield from _own_continues(x)
+    for h in getattr(s, "handlers", []) or []:
+        for x in h.body:
+            yield from _own_continues(x)
+
+
+def _unwrap_oneshot(stmts: List[ast.stmt], budget: List[int]) -> Optional[List[ast.stmt]]:
+    """the body of a `while True:` every path of which ends in break / return / raise, as straight-line code with if / else:
+    `if c: A; break` + REST  ->  `if c: A` / `else: REST`.  None when a path falls through to the next iteration or when the
+    rewriting would copy statements more than the budget allows."""
+    if not stmts:
+        return None  # falls through: a real loop
+    s, rest = stmts[0], stmts[1:]
+    if isinstance(s, ast.Break):
+        return []
+    if isinstance(s, (ast.Return, ast.Raise)):
+        return [s]
+    if isinstance(s, ast.If):
+        body_falls = not _terminal(s.body)
+        else_falls = not s.orelse or not _terminal(s.orelse)
+        if body_falls and else_falls and rest:
+            budget[0] -= len(rest)
+            if budget[0] < 0:
+                return None
+        nb = _unwrap_oneshot(list(s.body) + ([copy.deepcopy(x) for x in rest] if body_falls else []), budget)
+        ne = _unwrap_oneshot(list(s.orelse) + (list(rest) if else_falls else []), budget)
+        if nb is None or ne is None:
+            return None
+        out_if = ast.copy_location(ast.If(test=s.test, body=nb or [ast.copy_location(ast.Pass(), s)], orelse=ne), s)
+        return [out_if]
+    if isinstance(s, ast.With) and s.body and isinstance(s.body[-1], ast.Break) and not any(True for b_ in s.body[:-1] for _ in _own_breaks(b_)) \
+            and not any(True for _ in _own_continues(s)) and len(s.body) > 1:
+        # `with cm: ...; break`: leaving the block through break runs the same __exit__ as falling out of it
+        return [ast.copy_location(ast.With(items=s.items, body=s.body[:-1]), s)]
+    if any(True for _ in _own_breaks(s)) or any(True for _ in _own_continues(s)):
+        return None
+    tail = _unwrap_oneshot(rest, budget)
+    return None if tail is None else [s] + tail
+
+
+_MISSING = object()
+
+
+def _sentinel_of(e: ast.AST) -> Optional[str]:
+    """a value that can serve as 'no result' marker: None / False / a free name written in capitals or with a leading underscore"""
+    if isinstance(e, ast.Constant) and (e.value is None or e.value is False):
+        return repr(e.value)
+    if isinstance(e, ast.Name) and (e.id.isupper() or e.id.startswith("_")) and not e.id.startswith("_h"):
+        return e.id
+    return None
+
+
 def control_flow_normal_form(fn: ast.AST) -> int:
     """Equivalent spellings of one decision are brought to one form (all steps preserve behaviour):
     conditional expressions that are the whole value of a return / yield / assignment become if statements; a `return v`
@@ -1377,6 +1443,74 @@ def control_flow_normal_form(fn: ast.AST) -> int:
             while i < len(blk):
                 st = blk[i]
                 nxt = blk[i + 1] if i + 1 < len(blk) else None
+                # N10 a one-shot `while True:` (what an inlined helper with early returns leaves behind) -> if / elif / else
+                if isinstance(st, ast.While) and isinstance(st.test, ast.Constant) and st.test.value is True and not st.orelse \
+                        and not any(True for b_ in st.body for _ in _own_continues(b_)):
+                    flat = _unwrap_oneshot(list(st.body), [12])
+                    if flat is not None:
+                        blk[i:i + 1] = flat
+                        changed += 1
+                        continue
+                # N11 `if ..: v = K else: v = e` ; `if v is K: <terminal>`  ->  the terminal block goes where K is assigned
+                if isinstance(st, ast.If) and st.orelse and isinstance(nxt, ast.If) and isinstance(nxt.test, ast.Compare) and len(nxt.test.ops) == 1 \
+                        and isinstance(nxt.test.ops[0], ast.Is) and _pure_name(nxt.test.left) and _sentinel_of(nxt.test.comparators[0]) \
+                        and _terminal(nxt.body) and _stmt_count_block(nxt.body) <= 6:
+                    vname, k = nxt.test.left.id, _sentinel_of(nxt.test.comparators[0])
+
+                    def leaves(node: ast.If):
+                        out_ = [node.body]
+                        if len(node.orelse) == 1 and isinstance(node.orelse[0], ast.If):
+                            out_ += leaves(node.orelse[0])
+                        else:
+                            out_.append(node.orelse)
+                        return out_
+                    lv = leaves(st)
+                    hits = [b_ for b_ in lv if b_ and isinstance(b_[-1], ast.Assign) and len(b_[-1].targets) == 1 and _pure_name(b_[-1].targets[0])
+                            and b_[-1].targets[0].id == vname and _sentinel_of(b_[-1].value) == k]
+                    reads_v = any(isinstance(x, ast.Name) and x.id == vname for y in nxt.body for x in ast.walk(y))
+                    if hits and all(b_ for b_ in lv) and not getattr(nxt, "_n11_done", False):
+                        for b_ in hits:
+                            b_[-1:] = ([b_[-1]] if reads_v else []) + [copy.deepcopy(x) for x in nxt.body]
+                        nxt._n11_done = True
+                        changed += 1
+                        continue
+                # N11b every branch binds `v` to a constant, then `if v:` / `if not v:` / `if v is K:` -> each branch gets the arm it selects
+                if isinstance(st, ast.If) and st.orelse and isinstance(nxt, ast.If) and not getattr(nxt, "_n11_done", False):
+                    tst = nxt.test
+                    neg = False
+                    if isinstance(tst, ast.UnaryOp) and isinstance(tst.op, ast.Not):
+                        tst, neg = tst.operand, True
+                    vname = tst.id if isinstance(tst, ast.Name) else (
+                        tst.left.id if isinstance(tst, ast.Compare) and len(tst.ops) == 1 and isinstance(tst.ops[0], (ast.Is, ast.IsNot))
+                        and isinstance(tst.left, ast.Name) and isinstance(tst.comparators[0], ast.Constant) else None)
+                    if vname:
+                        def leaves2(node: ast.If):
+                            out_ = [node.body]
+                            if len(node.orelse) == 1 and isinstance(node.orelse[0], ast.If):
+                                out_ += leaves2(node.orelse[0])
+                            else:
+                                out_.append(node.orelse)
+                            return out_
+                        lv = leaves2(st)
+                        consts = [b_[-1].value.value if b_ and isinstance(b_[-1], ast.Assign) and len(b_[-1].targets) == 1 and _pure_name(b_[-1].targets[0])
+                                  and b_[-1].targets[0].id == vname and isinstance(b_[-1].value, ast.Constant) else _MISSING for b_ in lv]
+                        loads = sum(1 for x in ast.walk(fn) if isinstance(x, ast.Name) and x.id == vname and isinstance(x.ctx, ast.Load))
+                        size = _stmt_count_block(nxt.body) + _stmt_count_block(nxt.orelse)
+                        if all(c_ is not _MISSING for c_ in consts) and size * len(lv) <= 24:
+                            for b_, c_ in zip(lv, consts):
+                                if isinstance(tst, ast.Name):
+                                    outcome = bool(c_)
+                                else:
+                                    same = c_ is tst.comparators[0].value
+                                    outcome = same if isinstance(tst.ops[0], ast.Is) else not same
+                                outcome = (not outcome) if neg else outcome
+                                arm = nxt.body if outcome else nxt.orelse
+                                b_[-1:] = ([b_[-1]] if loads > 1 else []) + [copy.deepcopy(x) for x in arm]
+                                if not b_:
+                                    b_.append(ast.copy_location(ast.Pass(), nxt))
+                            del blk[i + 1]
+                            changed += 1
+                            continue
                 # N1 conditional expression as the whole value
                 if isinstance(st, ast.Return) and isinstance(st.value, ast.IfExp):
                     v = st.value
